@@ -52,6 +52,38 @@ Inductive kind :=
 | KBindLhs (b : nat)         (* bind-lhs-change node of bind b *)
 | KBindMain (b : nat).       (* bind main node of bind b *)
 
+Global Instance fn1_eq : EqDecision fn1. Proof. solve_decision. Defined.
+Global Instance fn2_eq : EqDecision fn2. Proof. solve_decision. Defined.
+Global Instance fnN_eq : EqDecision fnN. Proof. solve_decision. Defined.
+Global Instance cutfn_eq : EqDecision cutfn. Proof. solve_decision. Defined.
+Global Instance kind_eq : EqDecision kind. Proof. solve_decision. Defined.
+
+(* boolean equality of templates (a nested inductive: written by hand) *)
+Fixpoint texp_eqb (a b : texp) : bool :=
+  match a, b with
+  | TRet k, TRet k' => k =? k'
+  | TX, TX => true
+  | TOuter n, TOuter n' => (n =? n')%nat
+  | TMap f e, TMap f' e' => bool_decide (f = f') && texp_eqb e e'
+  | TMap2 f e1 e2, TMap2 f' e1' e2' => bool_decide (f = f') && texp_eqb e1 e1' && texp_eqb e2 e2'
+  | TCut c e, TCut c' e' => bool_decide (c = c') && texp_eqb e e'
+  | TBind cs e, TBind cs' e' =>
+    (fix go (l l' : list texp) : bool :=
+       match l, l' with
+       | [], [] => true
+       | x :: l, y :: l' => texp_eqb x y && go l l'
+       | _, _ => false
+       end) cs cs' && texp_eqb e e'
+  | TNil, TNil => true
+  | _, _ => false
+  end.
+Fixpoint texps_eqb (l l' : list texp) : bool :=
+  match l, l' with
+  | [], [] => true
+  | x :: l, y :: l' => texp_eqb x y && texps_eqb l l'
+  | _, _ => false
+  end.
+
 Record node := mkNode {
   nkind : kind;
   decl : list nid;           (* Parents(): the declared inputs *)
